@@ -2437,3 +2437,115 @@ func ruleHaltString(c *Ctx, r *Rep) {
 		r.Undecided("haltstring:census", token.NoPos, "no branch on *gojq.HaltError found in the command")
 	}
 }
+
+// ---------------------------------------------------------------------------------------------------------------------
+// R-C08-indentrange, R-C04-elifreach
+
+func init() {
+	reg(&Rule{ID: "R-C08-indentrange", Props: []string{"C08", "C15"}, Floor: 1,
+		Doc: "the YAML encoder of the dependency panics on a negative indent, and the command hands it --indent's value unguarded where it builds the YAML marshaler: the one guard is the range check in runInternal, which therefore depends on nothing but the value — not on --compact-output or --tab, which the YAML marshaler ignores",
+		Run: ruleIndentRange})
+	reg(&Rule{ID: "R-C04-elifreach", Props: []string{"C04", "C01"}, Floor: 1,
+		Doc: "compileIf finishes a conditional only after it has dealt with the elif chain: every return that precedes the test of len(e.Elif) hands back a compile error, nothing else — a shortcut for a constant condition that compiles Else directly forgets the elifs in between",
+		Run: ruleElifReach})
+	addDecided("C08", " The --indent range check depends on the value alone (R-C08-indentrange).")
+	addDecided("C04", " compileIf returns nothing but errors before it reaches the elif chain (R-C04-elifreach).")
+}
+
+func ruleIndentRange(c *Ctx, r *Rep) {
+	p := c.Cli
+	info := p.TypesInfo
+	n := 0
+	for _, fd := range c.Decls(p) {
+		ast.Inspect(fd.Body, func(m ast.Node) bool {
+			ifs, ok := m.(*ast.IfStmt)
+			if !ok || ifs.Init == nil {
+				return true
+			}
+			ia, ok := ifs.Init.(*ast.AssignStmt)
+			if !ok || len(ia.Lhs) != 1 || len(ia.Rhs) != 1 {
+				return true
+			}
+			sel, ok := unparen(ia.Rhs[0]).(*ast.SelectorExpr)
+			if !ok || !strings.EqualFold(sel.Sel.Name, "outputIndent") {
+				return true
+			}
+			// the check: its body returns an error under comparisons of the dereferenced value with constants
+			returnsErr := false
+			ast.Inspect(ifs.Body, func(q ast.Node) bool {
+				if rs, ok := q.(*ast.ReturnStmt); ok && len(rs.Results) == 1 {
+					if t := info.TypeOf(rs.Results[0]); t != nil && types.Implements(t, errorIface()) {
+						returnsErr = true
+					}
+				}
+				return true
+			})
+			if !returnsErr {
+				return true
+			}
+			n++
+			iobj := info.ObjectOf(ia.Lhs[0].(*ast.Ident))
+			foreign := ""
+			ast.Inspect(ifs.Cond, func(q ast.Node) bool {
+				switch x := q.(type) {
+				case *ast.SelectorExpr:
+					foreign = c.Src(x)
+					return false
+				case *ast.Ident:
+					if o := info.ObjectOf(x); o != nil && o != iobj && x.Name != "nil" {
+						if _, isVar := o.(*types.Var); isVar {
+							foreign = x.Name
+						}
+					}
+				}
+				return true
+			})
+			r.Check(foreign == "", "indentrange:"+declKey(fd), ifs.Pos(), "the range check of --indent in %s is entered under `%s`, which depends on the value alone (other operand: %q): %v — skipped under -c or --tab, `--yaml-output -c --indent -1` reaches yaml.Encoder.SetIndent(-1), which panics", declKey(fd), c.Src(ifs.Cond), foreign, foreign == "")
+			return true
+		})
+	}
+	if n == 0 {
+		r.Undecided("indentrange:census", token.NoPos, "no range check of the --indent value found")
+	}
+}
+
+func ruleElifReach(c *Ctx, r *Rep) {
+	fd := c.Decl(c.Gojq, "compiler.compileIf")
+	if fd == nil {
+		r.Undecided("elifreach:compileIf", token.NoPos, "not found")
+		return
+	}
+	info := c.Gojq.TypesInfo
+	// the statement that looks at the elif chain
+	var elifPos token.Pos
+	ast.Inspect(fd.Body, func(m ast.Node) bool {
+		if sel, ok := m.(*ast.SelectorExpr); ok && sel.Sel.Name == "Elif" && !elifPos.IsValid() {
+			elifPos = sel.Pos()
+		}
+		return true
+	})
+	if !elifPos.IsValid() {
+		r.Bad("elifreach:compileIf", fd.Pos(), "compileIf never looks at e.Elif")
+		return
+	}
+	early := token.NoPos
+	ast.Inspect(fd.Body, func(m ast.Node) bool {
+		if _, ok := m.(*ast.FuncLit); ok {
+			return false
+		}
+		rs, ok := m.(*ast.ReturnStmt)
+		if !ok || rs.Pos() > elifPos {
+			return true
+		}
+		if len(rs.Results) == 1 {
+			if id, ok := unparen(rs.Results[0]).(*ast.Ident); ok {
+				if o := info.ObjectOf(id); o != nil && types.Implements(o.Type(), errorIface()) && id.Name != "nil" {
+					return true // return err
+				}
+			}
+		}
+		early = rs.Pos()
+		return true
+	})
+	r.Check(!early.IsValid(), "elifreach:compileIf", fd.Pos(), "every return of compileIf that precedes its look at e.Elif (%s) hands back a compile error (other return: %s): %v — `if false then 1 elif . then 2 else 3 end` must not compile to 3", c.Pos(elifPos), c.Pos(early), !early.IsValid())
+}
